@@ -377,7 +377,43 @@ def run_kw(case, rec):
     rec.sample({"mode": mode, "mut": mut, "mli_kind": case.get("mli_kind"), "blob_len": len(blob), "expected": "accept" if exp is not None else "reject"})
 
 
+# ------------------------------------------------------------------ CCM: AAD length-encoding thresholds (receiver side)
+def cases_ccm_aad(tier, shard, nshards):
+    out = []
+    for i, n in enumerate([0xFEFF, 0xFF00, 0xFF01, 0xFFFF, 0x10000, 0x10001]):
+        for j, (nl, ml) in enumerate([(7, 16), (13, 4), (11, 8), (12, 10)]):
+            if tier == "quick" and (i + j) % 2:
+                continue
+            out.append({"aad_len": n, "nonce_len": nl, "mac_len": ml, "keylen": [16, 24, 32][(i + j) % 3], "pt_len": [0, 1, 17, 32][j],
+                        "mut": ["identity", "flip-tag", "identity", "flip-aad"][(i + j) % 4]})
+    return [c for k, c in enumerate(out) if k % nshards == shard]
+
+
+def run_ccm_aad(case, rec):
+    spec = {"kind": "aead", "cipher": "AES", "mode": "CCM", "key": gen.expand(b"k", case["keylen"]), "nonce": gen.expand(b"n", case["nonce_len"]),
+            "mac_len": case["mac_len"]}
+    aad = gen.expand(b"aad", case["aad_len"])
+    pt = gen.expand(b"pt", case["pt_len"])
+    ct, tag = sym.ref_encrypt(spec, pt, [aad])
+    raad, rtag = aad, tag
+    if case["mut"] == "flip-tag":
+        rtag = flip(tag, 5)
+    elif case["mut"] == "flip-aad":
+        raad = flip(aad, 8 * (len(aad) - 1))
+    exp = sym.ref_decrypt(spec, ct, [raad], rtag)
+    kind, got = lib_open(spec, [raad[:1000], raad[1000:]], ct, rtag, "dav", "AES/CCM")
+    if exp is None and kind == "ok":
+        raise Violation("aead/AES/CCM/forgery-accepted/aad-boundary", "forged tuple accepted with %d bytes of AAD" % len(aad), **case)
+    if exp is not None and (kind != "ok" or bytes(got) != exp):
+        raise Violation("aead/AES/CCM/authentic-rejected/aad-boundary", "the specification's tag for %d bytes of associated data is rejected" % len(aad), **case)
+    rec.nt("ccm-aad", case["aad_len"], case["nonce_len"], case["mac_len"], case["mut"])
+    rec.event("ccm-aad:%#x:%s" % (case["aad_len"], case["mut"]))
+    rec.sample(case)
+
+
 CHECKS = [
+    Check("ccm_aad", run=run_ccm_aad, cases=cases_ccm_aad, shards=(8, 12),
+          rule="CCM receiver with associated data lengths around the 0xFF00 / 2^16 length-encoding thresholds"),
     Check("aead", run=run_aead, strategy=strat_aead, examples=(40000, 800000), shards=(16, 16),
           rule="received tuple = mutation of a reference-encrypted message; accepted iff the reference accepts, plaintext equal, rejection is ValueError"),
     Check("sender", run=run_sender, strategy=strat_sender, examples=(6000, 80000), shards=(8, 16),
